@@ -337,3 +337,11 @@ Qed.
 Theorem iter_splitlines_correct : forall alts t, alts_ok alts = true ->
   iter_splitlines alts t = iter_splitlines_spec t.
 Proof. intros alts t OK. rewrite iter_splitlines_scan by exact OK. apply (scan_spec t [] eq_refl). Qed.
+
+(* strutils.indent is built on the same scanner *)
+Theorem indent_correct : forall alts t margin newline, alts_ok alts = true ->
+  indent alts t margin newline = indent_spec t margin newline.
+Proof.
+  intros alts t m n OK. unfold indent, indent_spec. rewrite iter_splitlines_correct by exact OK.
+  f_equal. apply map_ext. intros [|x l]; reflexivity.
+Qed.
